@@ -25,7 +25,8 @@ GenInit == \/ /\ errshape = "none"
               /\ origin \in {o \in Origins(MaxFields) : o # <<>> /\ NoDup(o)}
               /\ shift \in 0..(Len(TagClasses) - 1)
               /\ omit \in {{}, {1}, {Len(origin)}, 1..Len(origin)}
-              /\ replace \in (IF \E i \in 1..Len(origin) : origin[i] = "sub" /\ i \notin omit THEN {"none", "type", "typeAndTag"} ELSE {"none"})
+              (* the replace tag may name a field that an omit tag names as well: omitted wins *)
+              /\ replace \in (IF \E i \in 1..Len(origin) : origin[i] = "sub" THEN {"none", "type", "typeAndTag"} ELSE {"none"})
            \/ /\ errshape \in ErrorShapes /\ origin = <<>> /\ shift = 0 /\ omit = {} /\ replace = "none"
 GenNone == FALSE /\ UNCHANGED <<origin, shift, omit, replace, errshape>>
 
